@@ -214,7 +214,14 @@ def handle (j : Json) : R (List (String × Json)) := do
     let tourJobs := (b.tours.zip b.actors).map (fun x => (actorIdx x.2, x.1.acts.map (·.1)))
     if !(pins.all (fun pin => pinB pin tourJobs)) then
       okLocked := false
-      bad := bad.push (note "a pinned job left its vehicle or its order")
+      -- told apart: the pins hold once marker jobs (reloads, breaks: indices behind the plan's jobs) are left out
+      let planN := p.jobs.length
+      let pinsPlan := pins.map (fun pin => { pin with jobs := pin.jobs.filter (· < planN) })
+      let toursPlan := tourJobs.map (fun t => (t.1, t.2.filter (· < planN)))
+      if pinsPlan.all (fun pin => pinB pin toursPlan) then
+        bad := bad.push (note "a pinned marker (reload/break) left its place")
+      else
+        bad := bad.push (note "a pinned job left its vehicle or its order")
     if first then
       first := false
     else
